@@ -129,7 +129,7 @@ class SceneGraph:
             return self._cache[key]
 
         # get the geometry at the final node if any
-        geometry = self.transforms.node_data[frame_to].get("geometry")
+        geometry = self.transforms.node_data.get(frame_to, {}).get("geometry")
 
         # get a local reference to edge data
         data = self.transforms.edge_data
